@@ -218,6 +218,48 @@ def h_vfreebusy(start: int, end: int, has_dtstart: bool, dtstart: int, has_dtend
     return run(body_vfreebusy, start, end, has_dtstart, dtstart, has_dtend, dtend, periods)
 
 
+
+# ------------------------------------------------------------------ VFREEBUSY on REAL icalendar objects
+FB_LAYOUTS = [
+    (b"FREEBUSY:20200101T100000Z/20200101T110000Z\r\n", [(10, 11)]),                                    # one line, one period
+    (b"FREEBUSY:20200101T100000Z/20200101T110000Z,20200101T140000Z/PT1H\r\n", [(10, 11), (14, 15)]),   # one line, two
+    (b"FREEBUSY:20200101T100000Z/20200101T110000Z\r\nFREEBUSY:20200101T140000Z/PT1H\r\n", [(10, 11), (14, 15)]),
+    (b"", []),                                                                                          # none
+    (b"DTSTART:20200101T080000Z\r\nDTEND:20200101T090000Z\r\nFREEBUSY:20200101T100000Z/20200101T110000Z\r\n", "dt"),
+]
+FB_WINDOWS = [(9, 10), (10, 11), (11, 12), (13, 16), (8, 9), (0, 24), (14, 15)]   # hours of 2020-01-01, [start, end)
+
+
+def body_vfreebusy_real(li, wi):
+    """apply_time_range_vfreebusy on components PARSED BY THE REAL icalendar library (one FREEBUSY line with one
+    period, one line with two, two lines, none, DTSTART + DTEND present) against the 9.9 VFREEBUSY table."""
+    from xv.core import picks, untraced
+    (body, periods), (ws, we) = picks((li, wi), (FB_LAYOUTS, FB_WINDOWS))
+    with untraced():
+        import datetime as _real
+        from icalendar.cal import Calendar
+        m = _PRISTINE
+        cal = Calendar.from_ical(b"BEGIN:VCALENDAR\r\nVERSION:2.0\r\nPRODID:x\r\nBEGIN:VFREEBUSY\r\nUID:u\r\n"
+                                 b"DTSTAMP:20200101T000000Z\r\n" + body + b"END:VFREEBUSY\r\nEND:VCALENDAR\r\n")
+        comp = cal.subcomponents[0]
+        utc = _real.timezone.utc
+        at = lambda h: _real.datetime(2020, 1, 1, 0, 0, tzinfo=utc) + _real.timedelta(hours=h)
+        got = m.apply_time_range_vfreebusy(at(ws), at(we), comp, lambda d: m.as_tz_aware_ts(d, utc))
+        if periods == "dt":
+            # 9.9: DTSTART and DTEND present -> (start <= DTEND) AND (end > DTSTART)
+            want = ws <= 9 and we > 8
+        else:
+            want = any(ws < pe and we > ps for (ps, pe) in periods)
+        return (bool(got) == want, "hit" if want else "miss")
+
+
+def h_vfreebusy_real(li: int, wi: int) -> bool:
+    """
+    pre: 0 <= li < len(FB_LAYOUTS) and 0 <= wi < len(FB_WINDOWS)
+    post: _
+    """
+    return run(body_vfreebusy_real, li, wi)
+
 # ------------------------------------------------------------------ filter semantics (9.7.1 - 9.7.5)
 from xv.harness import _calq  # noqa: E402
 
@@ -480,6 +522,11 @@ HARNESSES = [
         assumptions=_TR_ASSUME,
         encodes=["xandikos.icalendar.apply_time_range_vfreebusy"],
     ),
+    Harness("vfreebusy_real", h_vfreebusy_real, body_vfreebusy_real, classes=["hit", "miss"],
+            budget={"quick": 30, "thorough": 60},
+            describe="apply_time_range_vfreebusy on VFREEBUSY components parsed by the real icalendar library (5 layouts of "
+                     "FREEBUSY / DTSTART / DTEND x 7 query windows) against the 9.9 table; exhaustive over the menu",
+            encodes=["xandikos.icalendar.apply_time_range_vfreebusy", "xandikos.icalendar.as_tz_aware_ts"]),
     Harness(
         "filter_api", h_filter_api, body_filter_api,
         classes=[(sh + ":hit", sh) for sh in _calq.SHAPES + _calq.SHAPES2] + [("comp:miss", "comp"), ("prop-text:miss", "prop-text")],
